@@ -629,6 +629,7 @@ static int __parsec_taskpool_test( parsec_taskpool_t* tp, parsec_execution_strea
 }
 
 int remote_dep_ce_reconfigure(parsec_context_t* context);
+static int parsec_ce_configured_once = 0;
 
 static int __parsec_taskpool_wait( parsec_taskpool_t* tp, parsec_execution_stream_t *es )
 {
@@ -657,8 +658,13 @@ static int __parsec_taskpool_wait( parsec_taskpool_t* tp, parsec_execution_strea
          * progressing the communications we need to make sure the comm engine
          * is ready for primetime. */
         parsec_ce.enable(&parsec_ce);
-        remote_dep_ce_reconfigure(es->virtual_process[0].parsec_context);
-        parsec_remote_dep_reconfigure(es->virtual_process[0].parsec_context);
+        /* Only needed when no parsec_context_wait configured the engine yet; never from a
+         * nested wait issued by a task body on another thread (not thread safe). */
+        if( PARSEC_THREAD_IS_MASTER(es) && !parsec_ce_configured_once ) {
+            remote_dep_ce_reconfigure(es->virtual_process[0].parsec_context);
+            parsec_remote_dep_reconfigure(es->virtual_process[0].parsec_context);
+            parsec_ce_configured_once = 1;
+        }
     }
 #endif /* defined(DISTRIBUTED) */
 
@@ -753,6 +759,7 @@ int __parsec_context_wait( parsec_execution_stream_t* es )
             parsec_ce.enable(&parsec_ce);
             remote_dep_ce_reconfigure(parsec_context);
             parsec_remote_dep_reconfigure(parsec_context);
+            parsec_ce_configured_once = 1;
         }
 #endif /* defined(DISTRIBUTED) */
         parsec_context_enter_wait(parsec_context);
